@@ -39,6 +39,7 @@ type kauriCase struct {
 	N      int
 	BF     int
 	Pos    int // position of the subject in the tree order (0 = root)
+	Cache  int // capacity of the subject's signature cache (0 = none)
 	Ops    []kop
 }
 
@@ -50,7 +51,11 @@ func kauriProp(c kauriCase) common.Result {
 	tr.SetTreeHeightWaitTime(20 * time.Second) // the wait goroutine never fires inside a case; expiry is injected
 	// the subject: same keys and membership as member id, plus the tree
 	me := ms[id-1]
-	cfg := core.NewRuntimeConfig(id, me.Cfg.PrivateKey(), core.WithSyncVerification(), core.WithKauriTree(tr))
+	opts := []core.RuntimeOption{core.WithSyncVerification(), core.WithKauriTree(tr)}
+	if c.Cache > 0 {
+		opts = append(opts, core.WithCache(uint(c.Cache)))
+	}
+	cfg := core.NewRuntimeConfig(id, me.Cfg.PrivateKey(), opts...)
 	for i := 1; i <= c.N; i++ {
 		info, _ := me.Cfg.ReplicaInfo(hotstuff.ID(i))
 		cfg.AddReplica(info)
@@ -317,6 +322,7 @@ func TestC09Kauri(t *testing.T) {
 		}
 		c.BF = rapid.IntRange(2, 3).Draw(rt, "bf")
 		c.Pos = rapid.SampledFrom([]int{0, 0, 1, 2, 3, c.N - 1}).Draw(rt, "pos")
+		c.Cache = rapid.SampledFrom([]int{0, 0, 1, 2, 100}).Draw(rt, "cache")
 		n := rapid.IntRange(1, 12).Draw(rt, "nops")
 		for i := 0; i < n; i++ {
 			op := kop{K: rapid.SampledFrom([]string{"contrib", "contrib", "contrib", "contrib", "contrib", "timer"}).Draw(rt, "k")}
